@@ -551,6 +551,12 @@ def locate(fn, loc):
         if len(hits) <= loc[1]:
             raise Fail("%s: no `for … in range(<expr>)` loop #%d" % (fn.name, loc[1]), fn)
         return hits[loc[1]].iter.args[0]
+    if kind == "for_iter":
+        # ("for_iter", nth): the iterable of the nth (source order) `for` loop of the function (for shape pins)
+        hits = sorted((n for n in ast.walk(fn) if isinstance(n, ast.For)), key=lambda n: (n.lineno, n.col_offset))
+        if len(hits) <= loc[1]:
+            raise Fail("%s: no `for` loop #%d" % (fn.name, loc[1]), fn)
+        return hits[loc[1]].iter
     if kind == "fresh_dict":
         # pin: `target` is assigned a fresh empty dict literal (per-object state, not shared between objects)
         v = assign_value(fn, loc[1], 0)
@@ -609,6 +615,27 @@ def locate(fn, loc):
         if len(hits) <= loc[1]:
             raise Fail("%s: no `for ... in range(x)` loop" % fn.name, fn)
         return hits[loc[1]].iter.args[0]
+    if kind == "call_nargs":
+        # ("call_nargs", callee suffix, nth): how many arguments (positional and keyword) the nth call to `callee` in the function
+        # passes -> a numeric constant (e.g. "`async_send(out)` is called with the packet alone": no address, i.e. multicast)
+        hits = [n for n in ast.walk(fn) if isinstance(n, ast.Call) and ast.unparse(n.func).endswith(loc[1])]
+        hits.sort(key=lambda n: (n.lineno, n.col_offset))
+        if len(hits) <= loc[2]:
+            raise Fail("%s: no call to %s" % (fn.name, loc[1]), fn)
+        c = hits[loc[2]]
+        if any(isinstance(a, ast.Starred) for a in c.args) or any(k.arg is None for k in c.keywords):
+            raise Fail("%s: call to %s unpacks arguments" % (fn.name, loc[1]), c)
+        return ast.copy_location(ast.Constant(len(c.args) + len(c.keywords)), c)
+    if kind == "param_default_is_none":
+        # ("param_default_is_none", parameter): is the default value of the parameter the constant `None`? -> a boolean constant
+        a = fn.args
+        pos = a.posonlyargs + a.args
+        defaults = dict(zip([x.arg for x in pos[len(pos) - len(a.defaults):]], a.defaults))
+        defaults.update({x.arg: d for x, d in zip(a.kwonlyargs, a.kw_defaults) if d is not None})
+        if loc[1] not in [x.arg for x in pos + a.kwonlyargs]:
+            raise Fail("%s: no parameter %s" % (fn.name, loc[1]), fn)
+        d = defaults.get(loc[1])
+        return ast.copy_location(ast.Constant(d is not None and isinstance(d, ast.Constant) and d.value is None), fn)
     raise Fail("bad locator %r" % (loc,))
 
 
